@@ -21,7 +21,7 @@ RULE = ("reference-heavy SF-core recipes (backward / forward / self references b
 TRUSTED = ["harness/sfcore.py printers / capture stream (references seen before flattening, `.id` read in field order)"]
 ASSUMPTIONS = ["out of scope by design: references into hidden `__` tables and literal {object:, id:} references "
                "(neither is generated as a literal; hidden targets are skipped by the oracle)"]
-W = dict(case_twin=0.07, dual_fwd=0.25, ref=0.45, fwd=0.45, nick=0.5, dotted=0.35, nested=0.18, friend=0.45, zero_count=0.12, once=0.2, formula=0.2, randref=0.15)
+W = dict(hidden_nick=0.08, case_twin=0.07, dual_fwd=0.25, ref=0.45, fwd=0.45, nick=0.5, dotted=0.35, nested=0.18, friend=0.45, zero_count=0.12, once=0.2, formula=0.2, randref=0.15)
 
 
 DIRECTED = [S.stream_dual_forward_underfilled, S.stream_dual_forward_underfilled, S.stream_hidden_table_nicks, S.stream_late_forward_reference, S.stream_late_forward_reference, S.stream_first_statement_names, S.stream_stale_slot, S.stream_shared_nick_forward, S.stream_shared_nick_forward, S.stream_idle_middle, S.stream_once_cluster,
